@@ -32,6 +32,7 @@ def step (st : DState) (line : String) : DState × String :=
   | "expr" :: rest => (st, Driver.C14.handle rest)
   | "cfg" :: rest => (st, Driver.C18.handle rest)
   | "txn" :: rest => (st, Driver.C07.handle rest)
+  | "txc" :: rest => (st, Driver.C07c.handle rest)
   | "cal" :: rest => let (c, out) := Driver.C04.handle st.cal rest; ({ st with cal := c }, out)
   | "ch" :: rest => let (c, out) := Driver.C03.handle st.ch rest; ({ st with ch := c }, out)
   | "cache" :: rest => let (c, out) := Driver.C17.handle st.cache rest; ({ st with cache := c }, out)
